@@ -64,7 +64,7 @@ SESSION = Policy([("default", True, {"send_destination": "*", "eavesdrop": "true
 
 LIMIT_KEYS = {"names": "max_names_per_connection", "rules": "max_match_rules_per_connection",
               "completed": "max_completed_connections", "peruser": "max_connections_per_user",
-              "replies": "max_replies_per_connection", "maxmsg": "max_message_size"}
+              "replies": "max_replies_per_connection", "maxmsg": "max_message_size", "reply_timeout": "reply_timeout"}
 
 
 def gids_of(uid):
@@ -87,6 +87,7 @@ class ImplRun:
         self.unique = {}       # cid -> unique name (learnt from the Hello reply)
         self.bserial = BARRIER0
         self.monitors = set()
+        self.reply_timeout = (limits or {}).get("reply_timeout")
 
     def stop(self):
         for c in self.c.values():
@@ -175,6 +176,8 @@ class ImplRun:
             actor = op[1]
             if actor in self.c and actor not in self.closed:
                 self.c[actor].send_raw(op[2], op[3] if len(op) > 3 else ())
+        elif op[0] == "sleep":
+            time.sleep((self.reply_timeout or 0) * 1.3 / 1000.0 + 0.05)
         elif op[0] == "close":
             if op[1] in self.c and op[1] not in self.closed:
                 self.c[op[1]].close()
@@ -280,11 +283,13 @@ def op_lines(ops):
             lines.append("bus msg %d %s" % (op[1], op[2].hex()))
         elif op[0] == "close":
             lines.append("bus close %d" % op[1])
+        elif op[0] == "sleep":
+            lines.append("bus timeout")
     return lines
 
 
 def model_run(ops, policy=SESSION, limits=None):
-    lines = ["bus reset " + " ".join("%s=%d" % kv for kv in (limits or {}).items())] + policy.to_model() + op_lines(ops)
+    lines = ["bus reset " + " ".join("%s=%d" % kv for kv in (limits or {}).items() if kv[0] != "reply_timeout")] + policy.to_model() + op_lines(ops)
     outs = script.run_model("\n".join(lines) + "\n")[0]
     pre = 1 + len(policy.rules)
     for o in outs[:pre]:
@@ -345,6 +350,10 @@ def compare(ops, policy=SESSION, limits=None, extra="", impl=None):
         mper, mclosed, _ = model[i]
         for cid in sorted(set(iper) | set(mper)):
             a, b = iper.get(cid, []), mper.get(cid, [])
+            if op[0] == "sleep":
+                # slots time out one by one as the clock passes their deadlines; which of two deadlines
+                # a millisecond apart is noticed first is not part of the contract
+                a, b = sorted(a), sorted(b)
             if len(a) != len(b) or not all(opaque_match(y, x) for x, y in zip(a, b)):
                 return {"step": i, "op": show_op(op), "kind": "delivery", "conn": cid, "impl": a, "model": b}
         if newly != mclosed:
@@ -379,4 +388,6 @@ def parse_op(s):
         return ("send", int(t[1]), bytes.fromhex(t[2]))
     if t[0] == "connect":
         return ("connect", int(t[1]), int(t[2]), t[3] in ("True", "1"))
+    if t[0] == "sleep":
+        return ("sleep",)
     return ("close", int(t[1]))
